@@ -150,6 +150,19 @@ def mapSites (f : String → String) : Stmt → Stmt
   | .scope n b => .scope n (mapSites f b)
   | s => s
 
+/-- "pending.at_location" ↦ "at_location": survives the renaming of a local -/
+def lastComp (text : String) : String := (text.splitOn ".").getLast?.getD text
+
+/-- resolve by full call text; failing that by the method name, when exactly one call of the function has it -/
+def catchByText (text : String) (e : Py.Exn) (s : Stmt) : Option Res :=
+  let byText := mapSites textOf s
+  if ((sites byText).filter (· == text)).length > 1 then some (.maybe "ambiguous call text" e) else
+  match catchAt text e byText with
+  | some r => some r
+  | none =>
+    let short := mapSites (fun x => lastComp (textOf x)) s
+    if ((sites short).filter (· == lastComp text)).length == 1 then catchAt (lastComp text) e short else none
+
 def templateOf (fn hid : String) : String :=
   ((Extracted.Guards.handlerTemplates.find? (fun r => r.1 == fn && r.2.1 == hid)).map (·.2.2)).getD ""
 
@@ -158,26 +171,41 @@ def regionSite : String → String
   | "action" => "ctx.can_trigger"
   | "match" => "trigger.at_location"
   | "results" => "result.process"
-  | "callbacks" => "callback.process"
+  | "callbacks" => "context.at_location"
   | _ => "self.location_from_event"
 
-/-- which handler of the inlined trace_call catches a failure of class `e` in this phase; its function is found
-    by the handler id (ids are line based, unique within the file) -/
+def inlinedFns : List String :=
+  ["TriggerHandler.trace_call", "TriggerHandler.__trace_call", "TriggerHandler.__actions_for_location",
+   "TriggerContext.__exit__", "TriggerHandler.__process_call_backs", "CallbackContext.process", "ActionContext.process"]
+
+/-- template of a handler of the inlined trace_call (handler ids are line based; the function is one of those
+    inlined) -/
+def fullTemplate (hid : String) : String :=
+  ((Extracted.Guards.handlerTemplates.find? (fun r => r.2.1 == hid && inlinedFns.any (fun f => r.1.endsWith f))).map
+    (·.2.2)).getD ""
+
+/-- where a failure of class `e` at the call with this text ends up in the inlined trace_call; none = no such call -/
+def viaFull (text : String) (e : Py.Exn) : Option Json :=
+  match catchByText text e Extracted.Guards.traceCallFull with
+  | some (.caught hid) => some (Json.mkObj [("verdict", "caught"), ("level", "inlined"), ("template", Json.str (fullTemplate hid))])
+  | some (.escapes e') => some (Json.mkObj [("verdict", "escaped"), ("cls", Json.str (exnStr e'))])
+  | some (.maybe _ _) => some (Json.mkObj [("verdict", "maybe")])
+  | none =>
+    -- a call that the inlined skeleton replaced by the callee's body: look in the handler's own functions
+    (Extracted.Guards.prog.filter (fun p => inlinedFns.any (fun f => p.1.endsWith f))).findSome? (fun p =>
+      match catchAt text e (mapSites textOf p.2) with
+      | some (.caught hid) =>
+        some (Json.mkObj [("verdict", "caught"), ("level", "function"), ("template", Json.str (templateOf p.1 hid))])
+      | _ => none)
+
+/-- which handler of the inlined trace_call catches a failure of class `e` in this phase -/
 def regionVerdict (region : String) (e : Py.Exn) : Json :=
-  let full := mapSites textOf Extracted.Guards.traceCallFull
-  match catchAt (regionSite region) e full with
-  | some (.caught hid) =>
-    let tmpl := ((Extracted.Guards.handlerTemplates.find? (fun r => r.2.1 == hid &&
-      (r.1.endsWith "TriggerHandler.trace_call" || r.1.endsWith "TriggerHandler.__trace_call" ||
-       r.1.endsWith "TriggerHandler.__actions_for_location" || r.1.endsWith "TriggerContext.__exit__" ||
-       r.1.endsWith "TriggerHandler.__process_call_backs" || r.1.endsWith "CallbackContext.process" ||
-       r.1.endsWith "ActionContext.process"))).map (·.2.2)).getD ""
-    Json.mkObj [("verdict", "caught"), ("level", "region"), ("template", Json.str tmpl)]
-  | some (.escapes e') => Json.mkObj [("verdict", "escaped"), ("cls", Json.str (exnStr e'))]
-  | _ => Json.mkObj [("verdict", "maybe")]
+  (viaFull (regionSite region) e).getD (Json.mkObj [("verdict", "maybe")])
 
 /-- {"op":"resolve_text","cls":c,"region":r,"stack":[[fn,text],…]}: resolve through the frames the model knows by
-    the TEXT of the call; at the first frame it cannot place, answer for the phase of trace_call the fault is in -/
+    the TEXT of the call; a frame of a function (or at a call) the model does not know is looked up by its call text
+    in the inlined trace_call (helpers carved out of it keep their calls); failing that, answer for the phase of
+    trace_call the fault is in -/
 def handleResolveText (j : Json) : Except String Json := do
   let e ← exnOf (← getStr j "cls")
   let region ← getStr j "region"
@@ -186,18 +214,21 @@ def handleResolveText (j : Json) : Except String Json := do
     match a.toList with
     | [f, s] => pure ((← f.getStr?), (← s.getStr?))
     | _ => throw "stack frame must be [fn, text]")
-  let rec go (e : Py.Exn) : List (String × String) → Json
+  let rec go (e : Py.Exn) : List (String × String × Bool) → Json
     | [] => regionVerdict region e
-    | (fn, text) :: outer =>
+    | (fn, text, hasTry) :: outer =>
       match Extracted.Guards.prog.get fn with
-      | none => go e outer
+      | none =>
+        -- unknown to the model: without a `try` it is transparent; with one, place its call in the inlined skeleton
+        if hasTry then (viaFull text e).getD (regionVerdict region e) else go e outer
       | some s =>
-        match catchAt text e (mapSites textOf s) with
-        | none => regionVerdict region e
+        match catchByText text e s with
+        | none => (viaFull text e).getD (regionVerdict region e)
         | some (.caught hid) =>
           Json.mkObj [("verdict", "caught"), ("level", "frame"), ("fn", Json.str fn), ("template", Json.str (templateOf fn hid))]
         | some (.maybe _ _) => Json.mkObj [("verdict", "maybe")]
         | some (.escapes e') => go e' outer
-  pure (go e stack)
+  let hasTry := (objPairs j "has_try").filterMap (fun (k, v) => v.getBool?.toOption.map (fun b => (k, b)))
+  pure (go e (stack.map (fun (f, t) => (f, t, ((hasTry.find? (fun p => p.1 == f)).map (·.2)).getD false))))
 
 end GuardRun
